@@ -103,6 +103,11 @@ type NexusOpts struct {
 	Comments  bool `json:"comments,omitempty"` // [comments] between commands
 	Lower     bool `json:"lower,omitempty"`    // lower-case keywords
 	Unknown   bool `json:"unknown,omitempty"`  // an unsupported block and command
+	// InlineEnd: the ';' that ends the TRANSLATE command follows its last entry on the same line
+	// ("5 e;", as MrBayes and BEAST write it) instead of standing on a line of its own
+	InlineEnd bool `json:"inline_end,omitempty"`
+	// TwoBlocks: the trees are spread over two TREES blocks (two tree files spliced under one header)
+	TwoBlocks bool `json:"two_blocks,omitempty"`
 }
 
 // Nexus writes the trees as a Nexus document. All trees must have the same tip names when
@@ -161,10 +166,15 @@ func Nexus(ms []*ref.Node, o NexusOpts) string {
 			sep := ","
 			if i == len(taxa)-1 {
 				sep = ""
+				if o.InlineEnd {
+					sep = ";"
+				}
 			}
 			b.WriteString("   " + tr[t] + " " + t + sep + "\n")
 		}
-		b.WriteString("  ;\n")
+		if !o.InlineEnd {
+			b.WriteString("  ;\n")
+		}
 	}
 	for i, m := range ms {
 		mm := m
@@ -179,6 +189,9 @@ func Nexus(ms []*ref.Node, o NexusOpts) string {
 		}
 		s := ref.Write(mm)
 		b.WriteString("  " + kw("TREE") + " tree" + strconv.Itoa(i) + " = " + s + "\n")
+		if o.TwoBlocks && len(ms) >= 2 && i == (len(ms)-1)/2 {
+			b.WriteString(kw("END") + ";\n" + kw("BEGIN TREES") + ";\n")
+		}
 	}
 	b.WriteString(kw("END") + ";\n")
 	return b.String()
